@@ -10,7 +10,7 @@ from . import facts as F
 
 VERIF = F.VERIF
 KNOWN_FILE = os.path.join(VERIF, "KNOWN_FINDINGS.txt")
-EVIDENCE_DIR = os.path.join(VERIF, "evidence")
+EVIDENCE_DIR = os.environ.get("FML_EVIDENCE_DIR") or os.path.join(VERIF, "evidence")
 
 
 def load_known():
